@@ -69,13 +69,14 @@ end RT
 theorem runTables_unfold (a : TableArgs) (l r : Frame) (allowMissing oss : Bool) (cpu : Int)
     (work : OutCfg → Nat → Nat → List Row → List Row → List Row) :
     runTables a l r allowMissing oss cpu work =
-      (do let chunks ← (chunksFor (RT.rArr a r) a.nJobs cpu).mapM (fun ch =>
+      (do raiseIf (!(joinCellsOk (RT.lArr a l) (RT.lAttrIdx a) && joinCellsOk (RT.rArr a r) (RT.rAttrIdx a))) .typeErr
+          let chunks ← (chunksFor (RT.rArr a r) a.nJobs cpu).mapM (fun ch =>
               mkRows (work (RT.out a) (RT.lAttrIdx a) (RT.rAttrIdx a) (RT.lArr a l) ch) (RT.header a oss))
           let missing ← if allowMissing then
               (getPairsWithMissingValue l r a.lKey a.rKey a.lAttr a.rAttr (RT.lOut a) (RT.rOut a)
                 a.lPre a.rPre oss).map (fun p => some p.2)
             else pure none
-          return finish (RT.header a oss) chunks missing) := rfl
+          finishPy (RT.header a oss) chunks missing) := rfl
 
 /-- `missingPairs_eq` in the vocabulary of `runTables` -/
 theorem RT.getPairsWithMissingValue_eq (a : TableArgs) (l r : Frame) (oss : Bool) :
@@ -100,50 +101,155 @@ theorem finish_rows (header : List String) (chunks : List (List Row)) (missing :
   unfold finish
   cases missing <;> simp
 
+/-! ### the two new failure modes: a non-string join value (TypeError), an `_id` clash (ValueError) -/
+
+/-- the tokenizer's check on the left array ⇔ the left join column holds only strings and missing values -/
+theorem RT.joinCellsOk_lArr_iff (a : TableArgs) (l : Frame) :
+    joinCellsOk (RT.lArr a l) (RT.lAttrIdx a) = true ↔ Props.StrColumn l a.lAttr := by
+  rw [joinCellsOk_iff]
+  constructor
+  · intro h s hs
+    by_cases hm : (s.cell (l.colIdx a.lAttr)).isMissing = true
+    · exact Cell.strOrMissing_of_isMissing _ hm
+    · have hx : ((RT.lProj a).map l.colIdx).map s.cell ∈ RT.lArr a l :=
+        List.mem_map_of_mem (List.mem_filter.2 ⟨hs, by simpa using hm⟩)
+      have e : Row.cell (((RT.lProj a).map l.colIdx).map s.cell) (RT.lAttrIdx a) = s.cell (l.colIdx a.lAttr) :=
+        (projection_faithful l a.lKey a.lAttr a.lOut s).2.1
+      have := h _ hx
+      rw [e] at this
+      exact this
+  · intro h x hx
+    obtain ⟨s, hs, rfl⟩ := List.mem_map.1 hx
+    have e : Row.cell (((RT.lProj a).map l.colIdx).map s.cell) (RT.lAttrIdx a) = s.cell (l.colIdx a.lAttr) :=
+      (projection_faithful l a.lKey a.lAttr a.lOut s).2.1
+    rw [e]
+    exact h s (List.mem_filter.1 hs).1
+
+theorem RT.joinCellsOk_rArr_iff (a : TableArgs) (r : Frame) :
+    joinCellsOk (RT.rArr a r) (RT.rAttrIdx a) = true ↔ Props.StrColumn r a.rAttr := by
+  rw [joinCellsOk_iff]
+  constructor
+  · intro h s hs
+    by_cases hm : (s.cell (r.colIdx a.rAttr)).isMissing = true
+    · exact Cell.strOrMissing_of_isMissing _ hm
+    · have hx : ((RT.rProj a).map r.colIdx).map s.cell ∈ RT.rArr a r :=
+        List.mem_map_of_mem (List.mem_filter.2 ⟨hs, by simpa using hm⟩)
+      have e : Row.cell (((RT.rProj a).map r.colIdx).map s.cell) (RT.rAttrIdx a) = s.cell (r.colIdx a.rAttr) :=
+        (projection_faithful r a.rKey a.rAttr a.rOut s).2.1
+      have := h _ hx
+      rw [e] at this
+      exact this
+  · intro h x hx
+    obtain ⟨s, hs, rfl⟩ := List.mem_map.1 hx
+    have e : Row.cell (((RT.rProj a).map r.colIdx).map s.cell) (RT.rAttrIdx a) = s.cell (r.colIdx a.rAttr) :=
+      (projection_faithful r a.rKey a.rAttr a.rOut s).2.1
+    rw [e]
+    exact h s (List.mem_filter.1 hs).1
+
+/-- (b) a present join value that is not a string, in either table: TypeError, whatever else holds -/
+theorem runTables_typeErr (a : TableArgs) (l r : Frame) (allowMissing oss : Bool) (cpu : Int)
+    (work : OutCfg → Nat → Nat → List Row → List Row → List Row)
+    (h : ¬ (Props.StrColumn l a.lAttr ∧ Props.StrColumn r a.rAttr)) :
+    runTables a l r allowMissing oss cpu work = .error .typeErr := by
+  rw [runTables_unfold]
+  have : (!(joinCellsOk (RT.lArr a l) (RT.lAttrIdx a) && joinCellsOk (RT.rArr a r) (RT.rAttrIdx a))) = true := by
+    rw [Bool.not_eq_true', Bool.and_eq_false_iff]
+    by_cases h1 : Props.StrColumn l a.lAttr
+    · right
+      exact Bool.eq_false_iff.2 (fun h2 => h ⟨h1, (RT.joinCellsOk_rArr_iff a r).1 h2⟩)
+    · left
+      exact Bool.eq_false_iff.2 (fun h2 => h1 ((RT.joinCellsOk_lArr_iff a l).1 h2))
+  rw [this]
+  rfl
+
+/-- INVERSION: a successful `runTables` met only strings and had no `_id` clash -/
+theorem runTables_ok_inv (a : TableArgs) (l r : Frame) (allowMissing oss : Bool) (cpu : Int)
+    (work : OutCfg → Nat → Nat → List Row → List Row → List Row) (fr : Frame)
+    (h : runTables a l r allowMissing oss cpu work = .ok fr) :
+    Props.StrColumn l a.lAttr ∧ Props.StrColumn r a.rAttr ∧ Props.NoIdClash (RT.header a oss) := by
+  obtain ⟨h1, h2, -⟩ := runTables_inv a l r allowMissing oss cpu work fr h
+  rw [Bool.and_eq_true] at h1
+  exact ⟨(RT.joinCellsOk_lArr_iff a l).1 h1.1, (RT.joinCellsOk_rArr_iff a r).1 h1.2, h2⟩
+
+theorem RT.header_eq_outHeader (a : TableArgs) (oss : Bool) : RT.header a oss = Props.outHeader a oss := rfl
+
+/-- INVERSION, bundled -/
+theorem runTables_bodyOK (a : TableArgs) (l r : Frame) (allowMissing oss : Bool) (cpu : Int)
+    (work : OutCfg → Nat → Nat → List Row → List Row → List Row) (fr : Frame)
+    (h : runTables a l r allowMissing oss cpu work = .ok fr) : Props.BodyOK a l r oss :=
+  let ⟨h1, h2, h3⟩ := runTables_ok_inv a l r allowMissing oss cpu work fr h
+  ⟨h1, h2, h3⟩
+
 /-- exact result of `runTables` when `work` produces rows of the header's width on every chunk
-    actually processed (weaker hypothesis than in `runTables_eq`) -/
+    actually processed (weaker hypothesis than in `runTables_eq`), the join columns hold only strings
+    and missing values, and the header has no `_id` column -/
 theorem runTables_eq' (a : TableArgs) (l r : Frame) (allowMissing oss : Bool) (cpu : Int)
     (work : OutCfg → Nat → Nat → List Row → List Row → List Row)
     (hw : ∀ ch ∈ chunksFor (RT.rArr a r) a.nJobs cpu,
       ∀ row ∈ work (RT.out a) (RT.lAttrIdx a) (RT.rAttrIdx a) (RT.lArr a l) ch,
-        row.length = (RT.header a oss).length) :
+        row.length = (RT.header a oss).length)
+    (hsl : Props.StrColumn l a.lAttr) (hsr : Props.StrColumn r a.rAttr) (hid : Props.NoIdClash (RT.header a oss)) :
     runTables a l r allowMissing oss cpu work =
       .ok (finish (RT.header a oss)
         ((chunksFor (RT.rArr a r) a.nJobs cpu).map (fun ch =>
           work (RT.out a) (RT.lAttrIdx a) (RT.rAttrIdx a) (RT.lArr a l) ch))
         (if allowMissing then some (RT.missingRows a l r oss) else none)) := by
-  rw [runTables_unfold,
+  rw [runTables_unfold, (RT.joinCellsOk_lArr_iff a l).2 hsl, (RT.joinCellsOk_rArr_iff a r).2 hsr,
     except_mapM_ok _ (fun ch => work (RT.out a) (RT.lAttrIdx a) (RT.rAttrIdx a) (RT.lArr a l) ch) _
       (fun ch hch => mkRows_id _ _ (hw ch hch))]
   cases allowMissing
-  · rfl
-  · rw [if_pos rfl, RT.getPairsWithMissingValue_eq]
-    rfl
+  · exact finishPy_of_not_mem _ _ _ hid
+  · show (Except.map (fun p => some p.2) (getPairsWithMissingValue l r a.lKey a.rKey a.lAttr a.rAttr (RT.lOut a) (RT.rOut a)
+        a.lPre a.rPre oss) >>= fun missing => finishPy (RT.header a oss) _ missing) = _
+    rw [RT.getPairsWithMissingValue_eq]
+    exact finishPy_of_not_mem _ _ _ hid
 
 /-- exact result of `runTables` when `work` produces rows of the header's width -/
 theorem runTables_eq (a : TableArgs) (l r : Frame) (allowMissing oss : Bool) (cpu : Int)
     (work : OutCfg → Nat → Nat → List Row → List Row → List Row)
     (hw : ∀ ch, ∀ row ∈ work (RT.out a) (RT.lAttrIdx a) (RT.rAttrIdx a) (RT.lArr a l) ch,
-      row.length = (RT.header a oss).length) :
+      row.length = (RT.header a oss).length)
+    (hsl : Props.StrColumn l a.lAttr) (hsr : Props.StrColumn r a.rAttr) (hid : Props.NoIdClash (RT.header a oss)) :
     runTables a l r allowMissing oss cpu work =
       .ok (finish (RT.header a oss)
         ((chunksFor (RT.rArr a r) a.nJobs cpu).map (fun ch =>
           work (RT.out a) (RT.lAttrIdx a) (RT.rAttrIdx a) (RT.lArr a l) ch))
         (if allowMissing then some (RT.missingRows a l r oss) else none)) :=
-  runTables_eq' a l r allowMissing oss cpu work (fun ch _ => hw ch)
+  runTables_eq' a l r allowMissing oss cpu work (fun ch _ => hw ch) hsl hsr hid
 
-/-- TOTALITY + ROW DECOMPOSITION: `runTables` succeeds; its rows (without the leading `_id` cell)
-    are the per-chunk results in chunk order followed by the missing-value rows -/
+/-- (a) string columns, rows of the header's width, but the header already has an `_id` column:
+    `output_table.insert(0, '_id', …)` raises ValueError -/
+theorem runTables_idClash (a : TableArgs) (l r : Frame) (allowMissing oss : Bool) (cpu : Int)
+    (work : OutCfg → Nat → Nat → List Row → List Row → List Row)
+    (hw : ∀ ch ∈ chunksFor (RT.rArr a r) a.nJobs cpu,
+      ∀ row ∈ work (RT.out a) (RT.lAttrIdx a) (RT.rAttrIdx a) (RT.lArr a l) ch,
+        row.length = (RT.header a oss).length)
+    (hsl : Props.StrColumn l a.lAttr) (hsr : Props.StrColumn r a.rAttr) (hid : ¬ Props.NoIdClash (RT.header a oss)) :
+    runTables a l r allowMissing oss cpu work = .error .other := by
+  have hid' : "_id" ∈ RT.header a oss := Classical.not_not.1 hid
+  rw [runTables_unfold, (RT.joinCellsOk_lArr_iff a l).2 hsl, (RT.joinCellsOk_rArr_iff a r).2 hsr,
+    except_mapM_ok _ (fun ch => work (RT.out a) (RT.lAttrIdx a) (RT.rAttrIdx a) (RT.lArr a l) ch) _
+      (fun ch hch => mkRows_id _ _ (hw ch hch))]
+  cases allowMissing
+  · exact finishPy_of_mem _ _ _ hid'
+  · show (Except.map (fun p => some p.2) (getPairsWithMissingValue l r a.lKey a.rKey a.lAttr a.rAttr (RT.lOut a) (RT.rOut a)
+        a.lPre a.rPre oss) >>= fun missing => finishPy (RT.header a oss) _ missing) = _
+    rw [RT.getPairsWithMissingValue_eq]
+    exact finishPy_of_mem _ _ _ hid'
+
+/-- TOTALITY + ROW DECOMPOSITION: `runTables` succeeds (string join columns, no `_id` clash); its rows
+    (without the leading `_id` cell) are the per-chunk results in chunk order followed by the missing-value rows -/
 theorem runTables_ok (a : TableArgs) (l r : Frame) (allowMissing oss : Bool) (cpu : Int)
     (work : OutCfg → Nat → Nat → List Row → List Row → List Row)
     (hw : ∀ ch, ∀ row ∈ work (RT.out a) (RT.lAttrIdx a) (RT.rAttrIdx a) (RT.lArr a l) ch,
-      row.length = (RT.header a oss).length) :
+      row.length = (RT.header a oss).length)
+    (hsl : Props.StrColumn l a.lAttr) (hsr : Props.StrColumn r a.rAttr) (hid : Props.NoIdClash (RT.header a oss)) :
     ∃ fr, runTables a l r allowMissing oss cpu work = .ok fr ∧
       fr.rows.map (fun row => row.drop 1) =
         ((chunksFor (RT.rArr a r) a.nJobs cpu).flatMap (fun ch =>
           work (RT.out a) (RT.lAttrIdx a) (RT.rAttrIdx a) (RT.lArr a l) ch))
         ++ (if allowMissing then RT.missingRows a l r oss else []) := by
-  refine ⟨_, runTables_eq a l r allowMissing oss cpu work hw, ?_⟩
+  refine ⟨_, runTables_eq a l r allowMissing oss cpu work hw hsl hsr hid, ?_⟩
   rw [finish_rows_drop, List.flatMap_def]
   cases allowMissing <;> rfl
 
@@ -161,7 +267,8 @@ theorem runTables_rows (a : TableArgs) (l r : Frame) (allowMissing oss : Bool) (
           work (RT.out a) (RT.lAttrIdx a) (RT.rAttrIdx a) (RT.lArr a l) ch))
         ++ (if allowMissing then RT.missingRows a l r oss else [])).zipIdx.map
         (fun (x : Row × Nat) => Cell.int x.2 :: x.1) := by
-  rw [runTables_eq a l r allowMissing oss cpu work hw] at h
+  obtain ⟨hsl, hsr, hid⟩ := runTables_ok_inv a l r allowMissing oss cpu work fr h
+  rw [runTables_eq a l r allowMissing oss cpu work hw hsl hsr hid] at h
   cases Except.ok.inj h
   refine ⟨rfl, ?_⟩
   rw [finish_rows, List.flatMap_def]
@@ -482,7 +589,8 @@ theorem runTables_missing_tail (a : TableArgs) (l r : Frame) (oss : Bool) (cpu :
           ++ (r.rows.filter (fun row => (row.cell (r.colIdx a.rAttr)).isMissing)).flatMap (fun rs =>
             (l.rows.filter (fun row => !(row.cell (l.colIdx a.lAttr)).isMissing)).map (fun ls =>
               withScore oss (outputRow (RT.missOut a l r) ls rs) Cell.missing))) := by
-  obtain ⟨fr', h', hrows⟩ := runTables_ok a l r true oss cpu work hw
+  obtain ⟨hsl, hsr, hid⟩ := runTables_ok_inv a l r true oss cpu work fr h
+  obtain ⟨fr', h', hrows⟩ := runTables_ok a l r true oss cpu work hw hsl hsr hid
   rw [h] at h'
   cases Except.ok.inj h'
   rw [hrows]
@@ -518,6 +626,9 @@ section AxiomCheck
 #print axioms runTables_eq
 #print axioms runTables_ok
 #print axioms runTables_rows
+#print axioms runTables_typeErr
+#print axioms runTables_idClash
+#print axioms runTables_ok_inv
 #print axioms RT.withScore_outputRow_length
 #print axioms RT.outputRow_append_length
 #print axioms RT.chunks_flatten
